@@ -20,6 +20,7 @@ LEVEL = "exploration"
 N = {"quick": 640, "thorough": 20000}
 BUDGET_S = {"quick": 150, "thorough": 1500}
 MINIMISE_BUDGET_S = 40
+CASE_TIMEOUT_S = 40
 RULE = ("catalogue sweep: run i uses crop i mod 37 and soil (i div 37) mod 15 (all 555 crop x soil pairs every 555 runs), the other "
         "dimensions (strategy 0-5, field options incl. bunds at the documented default height 0, groundwater none/constant/variable, "
         "initial-water kinds, CO2 options, off-season, option switches, leap-day and no/partial-season windows, weather with events) "
@@ -28,7 +29,7 @@ RULE = ("catalogue sweep: run i uses crop i mod 37 and soil (i div 37) mod 15 (a
 STATE_MEASURE = "n/a (catalogue sweep; pair coverage reported instead)"
 PROFILE = {"z_bund_choices": [0.0, 0.0, 0.05, 0.1, 0.2], "leap_end_p": 0.06, "crop_override_p": 0.5, "gw": 0.25,
            "end_kinds": ["after", "after", "mid", "eoy", "harvestish", "mid"], "start_rel": ["at", "before", "before", "after"],
-           "sensible_planting_p": 0.6, "custom_soil_p": 0.0, "switchgdd_p": 0.05, "co2_p": 0.3, "newyear_p": 0.2}
+           "sensible_planting_p": 0.6, "any_dz": True, "dz_p": 0.35, "custom_soil_p": 0.0, "switchgdd_p": 0.05, "co2_p": 0.3, "newyear_p": 0.2}
 
 
 def gen_case(rng, tier, idx):
@@ -96,6 +97,9 @@ def run_case(case):
                     bad.append(("final", "row", row[0]))
         if bad:
             tab, col, r = bad[0]
+            from ..domain import CROP_INFO
+            if col == "FreshYield" and not CROP_INFO[spec["crop"]["name"]]["YldWC"]:
+                col = "FreshYield:crop-without-YldWC"
             res["violations"].append({"sig": f"C16:non-finite:{tab}:{col}", "msg": f"non-finite value in {tab}.{col} at row {r} (all: {bad[:5]})",
                                       "where": {"t": r if isinstance(r, int) else None}})
         if not t["finished"]:
